@@ -49,6 +49,8 @@ class QP(ASTNode):
 
 XTOK = ["/", "//", "@", "x", "QL", "[", "]", "0", "12", " ", "MemoryTextSource", "Nope", "*"]
 PTOK = ["(", ")", "QL", "*", "|", "@", "x", "items", "=", "[", "]", "->", "c", "$", "None", '"a"', '"("', " ", "MemoryTextSource", "Nope"]
+# quoted regexes with escaped quotes / backslashes at the start, in the middle and at the very end of the content
+QUOTED = ['"a\\""', '"\\"a"', '"a\\"b"', '"\\""', '"a\\\\"', '"\\\\d"']
 
 XCORE = [["/", "QL"], ["//", "QL"], ["QL"], ["/", "@", "items", "[", "0", "]", "QL"], ["//", "@", "items", "[", "12", "]", "QL"], ["/", "QP", "/", "@", "one", " ", "QL"],
          ["/", "QP", "//", "QL"], ["//", "[", "]", "QL"], ["@", "items", "/", "QL"], ["/", "@", "items", "[", "1", "]", "/", "@", "x", " ", "QL"], ["/", "/", "/", "QL"],
@@ -59,7 +61,8 @@ PCORE = [["(", "QL", ")"], ["(", "*", ")"], ["(", "QL", "|", "QP", ")"], ["(", "
          ["(", "QP", " ", "@", "one", "=", "(", "QL", " ", "@", "x", "=", '"a"', "->", "v", ")", "->", "c", ")"],
          ["(", "QP", " ", "@", "x", "->", "v", " ", "@", "one", "=", "(", "*", " ", "@", "x", "=", "$", "v", ")", ")"],
          ["(", "QP", " ", "@", "items", "=", "[", "(", "*", ")", " ", "(", "QL", ")", " ", "*", "->", "rest", "]", "->", "all", ")"],
-         ["(", "*", " ", "@", "nosuch", ")"], ["(", "QP", " ", "@", "items", "=", "[", "None", " ", '"a"', "]", ")"]]
+         ["(", "*", " ", "@", "nosuch", ")"], ["(", "QP", " ", "@", "items", "=", "[", "None", " ", '"a"', "]", ")"]] + \
+    [["(", "QL", " ", "@", "x", "=", q, ")"] for q in QUOTED] + [["(", "QL", " ", "@", "x", "=", q, "->", "c", ")"] for q in QUOTED[:2]]
 
 
 def probes():
@@ -250,7 +253,7 @@ def run_shard(cfg):
             if base and r2 and base != r2:
                 rec.violation("C17|xpath|whitespace-changes-meaning", {"grammar": "xpath", "text": "".join(toks), "spaced": sp}, "blanks between tokens changed verdict or matching behaviour")
     for ci, toks in enumerate(PCORE):
-        if ci % of == k:
+        if ci % of == k % max(1, min(of, len(PCORE))) or ci % of == k:
             rec.rank = ci
             base = do_p("".join(toks), core=True, ntok=len(toks))
             sp = with_blanks(toks)
